@@ -231,9 +231,9 @@ def census_universe_covers(case, i):
 def prev_state(case, i):
     for j in range(i - 1, -1, -1):
         l = case.lines[j]
-        if l.op in ("swap", "clone", "dropalt"):
+        if l.op in ("swap", "clone", "clonefrom", "dropalt"):
             if l.op == "swap" and l.out and not l.panic:
-                return parse_state(case.comp, l.out)
+                return parse_state(case.comp, l.pos[0] if l.pos else "")
             if l.op == "swap":
                 return None
             continue
@@ -276,10 +276,10 @@ def mon_C02(case):
             break
         toks = l.lhs.split()
         op = toks[0]
-        if op in ("clone", "dropalt", "census"):
+        if op in ("clone", "clonefrom", "dropalt", "census"):
             continue
         if op == "swap":
-            s2 = parse_state(comp, l.out)
+            s2 = parse_state(comp, l.pos[0] if l.pos else "")
             truth = dict(retained(comp, s2)) if s2 else {}
             continue
         if st is None:
@@ -461,10 +461,10 @@ def mon_C04(case):
     for i, (l, st) in enumerate(states_of(case)):
         if l.out is None or l.panic:
             break
-        if l.op in ("clone", "dropalt", "census"):
+        if l.op in ("clone", "clonefrom", "dropalt", "census"):
             continue
         if l.op == "swap":
-            before = parse_state(case.comp, l.out)
+            before = parse_state(case.comp, l.pos[0] if l.pos else "")
             continue
         if st is None:
             continue
@@ -479,7 +479,7 @@ def mon_C04(case):
                 fails.append(Fail(case, i, "ownership not conserved: unaccounted %s, accounted twice %s" % (dict(lost), dict(extra))))
         before = st
     # final drop: everything still retained is released
-    if case.end is not None and "dr" in case.end.named and before is not None and not any(l.op in ("clone", "swap") for l in case.lines):
+    if case.end is not None and "dr" in case.end.named and before is not None and not any(l.op in ("clone", "clonefrom", "swap") for l in case.lines):
         dr = Counter(case.end.named["dr"][1:-1].split()) if case.end.named["dr"] != "[]" else Counter()
         if dr != retained_multiset(before):
             fails.append(Fail(case, len(case.lines), "drop of the cache released %s, retained was %s" % (dict(dr), dict(retained_multiset(before)))))
@@ -577,10 +577,10 @@ def mon_C06(case):
             break
         toks = l.lhs.split()
         op = toks[0]
-        if op in ("clone", "dropalt", "census"):
+        if op in ("clone", "clonefrom", "dropalt", "census"):
             continue
         if op == "swap":
-            prev = parse_state(case.comp, l.out)
+            prev = parse_state(case.comp, l.pos[0] if l.pos else "")
             continue
         if st is None:
             continue
@@ -692,10 +692,10 @@ def mon_C12(case):
             break
         toks = l.lhs.split()
         op = toks[0]
-        if op in ("clone", "dropalt", "census"):
+        if op in ("clone", "clonefrom", "dropalt", "census"):
             continue
         if op == "swap":
-            prev = parse_state(comp, l.out)
+            prev = parse_state(comp, l.pos[0] if l.pos else "")
             continue
         if st is None:
             continue
@@ -779,10 +779,10 @@ def mon_C13(case):
             break
         toks = l.lhs.split()
         op = toks[0]
-        if op in ("clone", "dropalt"):
+        if op in ("clone", "clonefrom", "dropalt"):
             continue
         if op == "swap":
-            prev_txt = l.out
+            prev_txt = l.pos[0] if l.pos else None
             continue
         if op == "census":
             continue
@@ -874,10 +874,10 @@ def mon_C15(case):
     for i, (l, st) in enumerate(states_of(case)):
         if l.out is None or l.panic:
             break
-        if l.op in ("clone", "dropalt", "census"):
+        if l.op in ("clone", "clonefrom", "dropalt", "census"):
             continue
         if l.op == "swap":
-            prev = parse_state(case.comp, l.out)
+            prev = parse_state(case.comp, l.pos[0] if l.pos else "")
             continue
         if st is None or "cb" not in l.named:
             continue
@@ -900,19 +900,22 @@ def mon_C15(case):
 # ---------------------------------------------------------------------------------------------
 def mon_C16(case):
     fails = []
-    last_state = None
+    last = None        # (state text, sz) of the original at the moment of the clone
     for i, l in enumerate(case.lines):
         if l.out is None or l.panic:
             break
-        if l.op == "clone":
-            if last_state is not None and l.out != last_state and not l.out.startswith("BAD"):
-                fails.append(Fail(case, i, "clone differs from the original: %s vs %s" % (l.out, last_state)))
+        if l.op in ("clone", "clonefrom"):
+            if l.out.startswith("BAD"):
+                continue
+            got = (l.pos[0] if l.pos else None, l.named.get("sz"))
+            if last is not None and got != last:
+                fails.append(Fail(case, i, "clone differs from the original: clone %s, original %s" % (got, last)))
             continue
         if l.op == "swap":
-            last_state = l.out
+            last = (l.pos[0] if l.pos else None, l.named.get("sz"))
             continue
         if len(l.pos) > 1:
-            last_state = l.pos[1]
+            last = (l.pos[1], l.named.get("sz"))
     return fails
 
 
@@ -972,7 +975,7 @@ def mon_C11(case):
         t = l.lhs.split()
         op = t[0]
         res = l.pos[0] if l.pos else ""
-        if op == "clone":
+        if op in ("clone", "clonefrom"):
             alt = (Counter(cnt), set(door), w, set(seen))
             continue
         if op == "swap":
@@ -1145,10 +1148,10 @@ def walk(case, comp_ok):
         if l.out is None or l.panic:
             return
         toks = l.lhs.split()
-        if toks[0] in ("clone", "dropalt", "census"):
+        if toks[0] in ("clone", "clonefrom", "dropalt", "census"):
             continue
         if toks[0] == "swap":
-            prev = parse_state(case.comp, l.out)
+            prev = parse_state(case.comp, l.pos[0] if l.pos else "")
             continue
         if st is None:
             continue
